@@ -281,6 +281,38 @@ theorem at_world_monotone_needs_internal :
     wmu (hstep ⟨1, 12⟩ demoEnv {} (.access 1 0x1004 ⟨false, 4, [], [], false⟩)) > wmu ({} : CW) := by
   decide
 
+/-- `at_no_loss` (1) needs "no control message pending" for its strict part: a tick that only takes a
+flush command reports progress while `mu` (which does not count the control port) stays 0; the closed
+world's measure `wmu` counts the control port and needs no such exception (`tick_sdec`). -/
+theorem at_no_loss_needs_no_ctl :
+    ∃ (c : Cfg) (ops : List Op), (tick c (run c ops)).2 = true ∧ ¬ mu (tick c (run c ops)).1 < mu (run c ops) :=
+  ⟨⟨1, 12⟩, [.ctl .flush], by decide, by decide⟩
+
+/-- `at_flush_step` needs room in the control port: with the previous acknowledgement still there the
+command stays at the port and nothing is cleared -/
+theorem at_flush_step_needs_room :
+    ∃ s : St, s.ctlIn = [.flush] ∧ s.ctlOut = 1 ∧ handleCtrl s = (s, false) :=
+  ⟨{ ctlIn := [.flush], ctlOut := 1 }, rfl, rfl, rfl⟩
+
+/-- a restart that is not preceded by a flush, taken while a memory response waits behind a full top port -/
+def restartNoFlushOps : List Op :=
+  [.access 1 0x1004 ⟨false, 4, [], [], false⟩, .tick, .drainTr, .trsp ⟨0, 0x11000⟩, .tick, .drainBot,
+   .brsp ⟨0, some [1, 2, 3, 4]⟩, .tick,
+   .access 1 0x2004 ⟨false, 4, [], [], false⟩, .tick, .drainTr, .trsp ⟨1, 0x12000⟩, .tick, .drainBot,
+   .brsp ⟨1, some [5, 6, 7, 8]⟩, .ctl .restart, .tick, .drainTop, .drainCtl, .tick, .tick]
+
+/-- The closed world's rule "restart only while flushing" cannot be dropped: a restart that is not
+preceded by a flush discards the memory response an in-flight record waits for — the record stays for
+ever, the accepted access 1 is never answered although nothing is pending anywhere and the component
+is idle. (Open environment; the simulator's controller always flushes first, and then
+`at_restart_drops_only_stale` applies. The real component does the same: harness scenario
+`deep2.restart-no-flush`, diffs=0, the access stays unanswered after the closing rounds.) -/
+theorem at_restart_needs_flush :
+    let s := run ⟨1, 12⟩ restartNoFlushOps
+    s.taken = [.restart] ∧ s.flushing = false ∧ s.infl.map (·.breq.bid) = [1] ∧ s.botIn = [] ∧ s.botOut = [] ∧
+    s.received.map (·.1.id) = [1, 0] ∧ s.answered.map (·.top.id) = [0] ∧ (tick ⟨1, 12⟩ s).2 = false := by
+  decide
+
 /-! ### Non-vacuity -/
 
 /-- a world with a flush taken, a restart waiting, a stale reply and a never-accepted access at the ports -/
